@@ -19,6 +19,17 @@ reaches too rarely (each added after a seeded change was missed; see DESIGN.md Â
   bal_<kind>[_loop]     BALANCED substitutions: as many variables dropped as extra copies made, with objects /
                          integers / closures on either side (reference counts: C09, C10, C11)
   rvc_<cmp>             print-free: each comparison in two-register and zero form on less/equal/greater (C08)
+  gname_<pos>_<v>       a USER binder spelled like a generated name (x0, a0, ..) bound inside a destructor / case
+                         scrutinee, call / constructor argument, operand, closure or label body, with a shared
+                         continuation below that mentions it (fresh-name pools: C02)
+  rvl_<k>               print-free: a literal outside the signed 32-bit range reaches the result (C08)
+  pfx_once / pfx_loop   a call whose arguments are exactly the leading context variables while a dead object is
+                         bound further right (it must still be erased: C09, C10)
+  dsp_<n>_cons|nil      an object variable (or the null pointer Nil) at environment position n, spilled for large n,
+                         duplicated by a substitution (C11, C09, C07)
+  cap_<n>               n = 129..140 simultaneously live integers at a print: the capacity boundary of the spill
+                         tables (x86-64 133, AArch64 140): refuse with the capacity message or run correctly (C09, C13)
+  capp_<n>              the same without temporaries: exactly n variables live across the prints
   nest_<k>              a `case` and a closure on instances whose type arguments are themselves parameterised
                          types in every position (labels are built from printed type names: C14)
 Every program has `main(arg: i64): i64`, takes the argument tuple in the sibling .args file."""
@@ -216,6 +227,85 @@ def rvc_prog(name):
     )
 
 
+# user binders spelled like GENERATED names (x0, x1, a0, a1 ...), bound inside every kind of sub-term position,
+# with a shared continuation below that mentions them (fresh-name pools must know every user binder)
+GENNAME_POS = {
+    "dtorscrut": "(let {v}: List[i64] = Cons(7, Nil); new {{ apply(n) => (if c == 0 {{ Nil }} else {{ Cons(n, Nil) }}).case[i64] {{ Nil => hd({v}), Cons(h, t) => h }} }}).apply[i64, i64](5)",
+    "casescrut": "(let {v}: List[i64] = Cons(7, Nil); if c == 0 {{ {v} }} else {{ Cons(9, {v}) }}).case[i64] {{ Nil => 0, Cons(h, t) => h + hd(t) }}",
+    "callarg": "add2((let {v}: i64 = c + 7; if c == 0 {{ {v} }} else {{ {v} + 1 }}), 5)",
+    "ctorarg": "hd(Cons((let {v}: i64 = c + 7; if c == 0 {{ {v} }} else {{ {v} + 1 }}), Nil))",
+    "opopnd": "3 + (let {v}: i64 = c + 7; if c == 0 {{ {v} }} else {{ {v} + 1 }})",
+    "ifopnd": "if (let {v}: i64 = c + 7; if c == 0 {{ {v} }} else {{ {v} + 1 }}) < 9 {{ 1 }} else {{ 2 }}",
+    "newbody": "(new {{ apply(n) => let {v}: i64 = n + c; if c == 0 {{ {v} }} else {{ {v} * 2 }} }}).apply[i64, i64](5)",
+    "labelbody": "label k {{ let {v}: i64 = c + 7; if c == 0 {{ goto k ({v}) }} else {{ {v} + 1 }} }}",
+}
+GENNAMES = ["x0", "x1", "a0", "a1", "x2"]
+
+
+def genname_prog(pos, v):
+    body = GENNAME_POS[pos].format(v=v)
+    return HEAD + (
+        "def hd(l: List[i64]): i64 { l.case[i64] { Nil => -1, Cons(h, t) => h } }\n"
+        "def add2(a: i64, b: i64): i64 { a + b }\n"
+        "def pick(c: i64): i64 { %s }\n"
+        "def main(arg: i64): i64 { println_i64(pick(0)); println_i64(pick(arg)); 0 }\n" % body
+    )
+
+
+RV_LITS = [2147483647, 2147483648, 4294967296, 4294967301, -2147483648, -2147483649, 9223372036854775807, -9223372036854775807, 281474976710656, 65541]
+
+
+def rvl_prog(k):
+    """print-free: a literal outside the 32-bit range reaches the result"""
+    return "def main(arg: i64): i64 { (arg - arg) + %d }\n" % RV_LITS[k]
+
+
+def prefixcall_prog(loop):
+    """a call whose arguments are exactly the LEADING context variables, with a dead heap variable further right"""
+    if loop:
+        return HEAD + (
+            "def build(n: i64, acc: List[i64]): List[i64] { if n <= 0 { acc } else { build(n - 1, Cons(n, acc)) } }\n"
+            "def peek(n: i64, acc: i64, l: List[i64]): i64 { l.case[i64] { Nil => acc, Cons(x, xs) => loop(n, acc) } }\n"
+            "def loop(n: i64, acc: i64): i64 { if n <= 0 { acc } else { peek(n - 1, acc + 1, build(5, Nil)) } }\n"
+            "def main(arg: i64): i64 { println_i64(loop(6, arg)); 0 }\n")
+    return HEAD + (
+        "def two(a: i64, b: i64): i64 { a + b }\n"
+        "def f(n: i64, acc: i64, l: List[i64]): i64 { l.case[i64] { Nil => acc, Cons(x, xs) => two(n, acc) } }\n"
+        "def main(arg: i64): i64 { println_i64(f(arg, 5, Cons(1, Cons(2, Nil)))); println_i64(f(arg, 6, Nil)); 0 }\n")
+
+
+def dupspill_prog(n, nil):
+    """an OBJECT variable at position n (spilled for large n; optionally the null pointer Nil) is duplicated by a substitution"""
+    params = ", ".join("p%d: i64" % i for i in range(n)) + (", " if n else "") + "l: List[i64]"
+    args = ", ".join(str(10 + i) for i in range(n)) + (", " if n else "") + ("Nil" if nil else "Cons(arg, Cons(3, Nil))")
+    tot = "0"
+    for i in range(n):
+        tot = "(%s + p%d)" % (tot, i)
+    return HEAD + (
+        "def hd(l: List[i64]): i64 { l.case[i64] { Nil => 0, Cons(h, t) => h } }\n"
+        "def use(%s): i64 { (hd(l) + hd(l)) + %s }\n"
+        "def main(arg: i64): i64 { println_i64(use(%s)); println_i64(use(%s)); 0 }\n" % (params, tot, args, args))
+
+
+def cap_prog(n):
+    """n simultaneously live integer variables at a print (capacity boundary of the spill table: the backends either
+    refuse with their capacity message or must run correctly)"""
+    lets = " ".join("let v%d: i64 = %d;" % (i, 1000 + i) if i else "let v0: i64 = arg + 1000;" for i in range(n))
+    tot = "0"
+    for i in range(n):
+        tot = "(%s + v%d)" % (tot, i)
+    return "def main(arg: i64): i64 { %s println_i64(v%d); println_i64(%s); println_i64(v%d); 0 }\n" % (lets, n - 1, tot, n - 1)
+
+
+def capp_prog(n):
+    """exactly n live integer variables across a print and NO temporaries: last variable printed, first printed, last again"""
+    lets = " ".join("let v%d: i64 = %d;" % (i, 1000 + i) if i else "let v0: i64 = arg + 1000;" for i in range(n))
+    keep = " ".join("println_i64(v%d);" % i for i in (n - 1, 0, n // 2, n - 1))
+    # every variable stays live until the last print: print them all once afterwards
+    rest = " ".join("print_i64(v%d);" % i for i in range(n))
+    return "def main(arg: i64): i64 { %s %s %s 0 }\n" % (lets, keep, rest)
+
+
 def main():
     out = sys.argv[1]
     os.makedirs(out, exist_ok=True)
@@ -254,6 +344,20 @@ def main():
         emit("bal_%s_loop" % k, bal_prog(k, True))
     for k in CMPS:
         emit("rvc_%s" % k, rvc_prog(k))
+    for pos in GENNAME_POS:
+        for v in GENNAMES[: (5 if pos in ("dtorscrut", "casescrut") else 2)]:
+            emit("gname_%s_%s" % (pos, v), genname_prog(pos, v))
+    for k in range(len(RV_LITS)):
+        emit("rvl_%d" % k, rvl_prog(k))
+    emit("pfx_once", prefixcall_prog(False))
+    emit("pfx_loop", prefixcall_prog(True))
+    for nn in (0, 5, 6, 12, 13, 14, 15, 17):
+        emit("dsp_%02d_cons" % nn, dupspill_prog(nn, False))
+        emit("dsp_%02d_nil" % nn, dupspill_prog(nn, True))
+    for nn in (129, 130, 131, 132, 133, 134, 136, 137, 138, 139, 140):
+        emit("cap_%d" % nn, cap_prog(nn))
+    for nn in (131, 132, 133, 134, 135, 139, 140, 141, 142):
+        emit("capp_%d" % nn, capp_prog(nn))
     for k in range(len(NEST_TYPES)):
         emit("nest_%d" % k, nest_prog(k))
     print(n, "programs")
